@@ -63,19 +63,26 @@ import sys
 import lib
 from lib import coq_string
 
-COQ_TARGETS = ["theories/Model/Core.vo", "theories/Model/RoutineAst.vo", "theories/Proofs/RoutineAst.vo",
-               "theories/Props/RoutineAst.vo"]
+COQ_TARGETS = ["theories/Model/Core.vo", "theories/Model/CoreLate.vo", "theories/Proofs/CoreHash.vo",
+               "theories/Proofs/CoreLate.vo", "theories/Model/RoutineAst.vo", "theories/Proofs/RoutineAst.vo",
+               "theories/Props/RoutineAst.vo", "theories/Props/CoreHash.vo"]
 
 PROPS = [("Props/RoutineAst.v", [
     "RA_unm_step", "RA_mar_step",
     "RA_unm_iterable", "RA_unm_mapping", "RA_unm_tuple", "RA_unm_struct", "RA_unm_union",
     "RA_mar_iterable", "RA_mar_mapping", "RA_mar_tuple", "RA_mar_struct", "RA_mar_union",
-    "RA_unm_set_outside", "RA_unm_mapping_outside", "RA_mar_mapping_outside", "RA_hash_order",
-    "RA_prog_eqb_sound", "RA_src_prog", "RA_src_prog_dir", "RA_unm_step_src", "RA_mar_step_src"])]
+    "RA_unm_set_late_outside", "RA_unm_mapping_late_outside", "RA_mar_mapping_late_outside", "RA_hash_order",
+    "RA_prog_eqb_sound", "RA_src_prog", "RA_src_prog_dir", "RA_unm_step_src", "RA_mar_step_src"]),
+    # Core's set / mapping steps hash each element as it is produced (repair of modelling difference D1); the former
+    # convert-all-then-hash formulation is kept in Model/CoreLate.v and characterised against the new one
+    ("Props/CoreHash.v", [
+        "CH_unm_set_ok_iff", "CH_unm_map_ok_iff", "CH_mar_map_ok_iff", "CH_unm_set_eq_late", "CH_unm_map_eq_late",
+        "CH_mar_map_eq_late", "CH_unm_set_outside_late", "CH_unm_map_outside_late", "CH_mar_map_outside_late",
+        "CH_mapM_hashing_ok", "CH_hashing_done"])]
 
 X_FILES = [
     ("RoutineAstXU.v", ["RAX_unm_agree", "RAX_unm_src", "RAX_unm_iterable_src", "RAX_unm_mapping_src", "RAX_unm_tuple_src",
-                        "RAX_unm_struct_src", "RAX_unm_union_src", "RAX_unm_set_outside_src"]),
+                        "RAX_unm_struct_src", "RAX_unm_union_src", "RAX_unm_set_late_outside_src"]),
     ("RoutineAstXM.v", ["RAX_mar_agree", "RAX_mar_src", "RAX_mar_iterable_src", "RAX_mar_mapping_src", "RAX_mar_tuple_src",
                         "RAX_mar_struct_src", "RAX_mar_union_src"]),
 ]
@@ -1038,8 +1045,9 @@ def obligations(run: lib.Run, props: bool = True) -> bool:
         "bodies of the ten composite routine classes as programs of Model/RoutineAst.v; the combinators' meaning "
         "(RoutineAst.interp: generators consumed by their constructor, first raise wins) is hand-written and shares "
         "load / itervalues / iteritems / first_ok / dict_of / dedupe / fill_fields with Model/Core.v",
-        "routine-program tie: Core's steps for sets and mappings convert every member before hashing any; the code "
-        "hashes as it goes (RA_unm_set_outside, RA_unm_mapping_outside, RA_mar_mapping_outside: exact region)",
+        "routine-program tie: Core's steps for sets and mappings hash each element as it is produced, as the code does "
+        "(unguarded RA_unm_iterable / RA_unm_mapping / RA_mar_mapping); the earlier convert-then-hash formulation is "
+        "Model/CoreLate.v (RA_*_late_outside, Props/CoreHash.v: exact region of difference)",
     ]
     return ok and not problems
 
